@@ -846,6 +846,7 @@ func (c *Ctx) memoisedViews() {
 				continue
 			}
 			updates, resets := false, false
+			var updInstrs, resetInstrs []ssa.Instruction
 			isSrc := func(addr ssa.Value) bool {
 				p := ir.PathOf(addr)
 				if len(p.Fields) == 0 || len(p.Owners) == 0 {
@@ -872,17 +873,21 @@ func (c *Ctx) memoisedViews() {
 					case *ssa.Store:
 						if isMemo(x.Addr) {
 							resets = true
+							resetInstrs = append(resetInstrs, x)
 						} else if isSrc(x.Addr) {
 							updates = true
+							updInstrs = append(updInstrs, x)
 						}
 					case *ssa.MapUpdate:
 						if ld, ok := ir.SeeThrough(x.Map).(*ssa.UnOp); ok && isSrc(ld.X) {
 							updates = true
+							updInstrs = append(updInstrs, x)
 						}
 					case *ssa.Call:
 						if bi, ok := x.Common().Value.(*ssa.Builtin); ok && bi.Name() == "delete" && len(x.Common().Args) > 0 {
 							if ld, ok := ir.SeeThrough(x.Common().Args[0]).(*ssa.UnOp); ok && isSrc(ld.X) {
 								updates = true
+								updInstrs = append(updInstrs, x)
 							}
 						}
 					}
@@ -892,6 +897,16 @@ func (c *Ctx) memoisedViews() {
 				nupd++
 				if !resets {
 					missing = append(missing, fname(fn))
+				} else {
+					// the memo is stored on every path that leads from an update of the source to a return - or before the
+					// update in the same straight line; a reset under a condition (only when the number of entries changed,
+					// say) leaves the old answer in place for the updates the condition does not see
+					for _, u := range updInstrs {
+						if !everyPathPasses(u, resetInstrs) && !resetDominatesStraight(u, resetInstrs) {
+							missing = append(missing, fname(fn)+" (the store of "+m.c+" does not lie on every path from the update at "+c.P.InstrPos(u)+" to the return)")
+							break
+						}
+					}
 				}
 			}
 		}
@@ -1029,6 +1044,48 @@ func (c *Ctx) sessionSetupRefusesNothing() {
 			"Session."+name+" can return an error that does not come from its own initialisation state ("+joinStr(bad, ", ")+"): it runs after the CONNECT was authenticated and the session store changed, so a CONNECT it turns away gets no CONNACK at all while the store keeps the change (an existing session of that client id is already replaced or rewritten)")
 	}
 	c.R.Floor("session set-up functions (Init, Update)", n, 2)
+}
+
+// everyPathPasses: every path from instruction `from` to a return of its function executes one of stops.
+func everyPathPasses(from ssa.Instruction, stops []ssa.Instruction) bool {
+	stop := map[*ssa.BasicBlock]bool{}
+	for _, s := range stops {
+		if s.Block() == from.Block() && ir.InstrIndex(s) > ir.InstrIndex(from) {
+			return true
+		}
+		stop[s.Block()] = true
+	}
+	isRet := func(b *ssa.BasicBlock) bool {
+		if len(b.Instrs) == 0 {
+			return false
+		}
+		_, ok := b.Instrs[len(b.Instrs)-1].(*ssa.Return)
+		return ok
+	}
+	if isRet(from.Block()) {
+		return false
+	}
+	for b := range ir.ReachableBlocks(from.Block(), stop) {
+		if isRet(b) {
+			return false
+		}
+	}
+	return true
+}
+
+// resetDominatesStraight: a reset earlier in the same block as the update, or in a block that dominates it with no
+// branch back (the memo is dropped first, then the source is changed, under one lock).
+func resetDominatesStraight(u ssa.Instruction, resets []ssa.Instruction) bool {
+	for _, r := range resets {
+		if r.Block() == u.Block() && ir.InstrIndex(r) < ir.InstrIndex(u) {
+			return true
+		}
+		if r.Block() != u.Block() && r.Block().Dominates(u.Block()) {
+			// unconditional with respect to the update: every path to the update passes the reset
+			return true
+		}
+	}
+	return false
 }
 
 // underNilCheckOfMessageParam: block b of fn runs only when a message parameter of fn is nil (`if msg == nil { ... }`).
